@@ -4,5 +4,6 @@ CONSTANTS
   Opts <- AllOpts
   MaxSet = 2
   Variant = "intended"
+  Fixed = {}
 INVARIANTS TypeOK C35_PrintedFileAccepted C35_RoundTrip
 CHECK_DEADLOCK FALSE
